@@ -26,10 +26,12 @@ def fstep(timeout=1500):
     h.bounds = dict(end_offset="16..2^62", frames=1)
     return h
 
-def fc(n, grouping, desc=12, timeout=1500, meta=1):
+def fc(n, grouping, desc=12, timeout=1500, meta=1, full=False):
     fsz = 16 + n * (8 + 320 + 8 + 8 + 8 + ((desc + 8) // 8) * 8 + 16) + 64
     h = tc.tiff_h(H, VERIF, "tiffjson_file_N%d_g%d_m%d" % (n, grouping, meta), ["MODE=15", "NFRAMES=%d" % n, "GROUPING=%d" % grouping, "DESC=%d" % desc, "FILE_URI=0", "SBS_META=%d" % meta],
-                  unwind=max(18, n + 2), timeout=timeout, unwindset={"file_write.0": fsz + 1}, composite=True)
+                  unwind=max(18, n + 2), timeout=timeout, unwindset={"file_write.0": fsz + 1}, composite=True, full=full)
+    if full:
+        h.name += "_full"; h.defines += ["FOLDER=0", "MKDIR_HOW=0"]
     h.what = "tiff-json composite: side_by_side_tiff_init/append/stop/destroy (clang IR -> C) around the translated tiff writer; set/start modelled by hand after the source (guarded by a source-text check); %d frame(s); same streaming reader on data.tif; metadata.json written and closed" % n
     h.bounds = dict(frames=n, image_bytes=8, metadata="absent or {}")
     h.est_gb = 18
@@ -38,6 +40,8 @@ def fc(n, grouping, desc=12, timeout=1500, meta=1):
 def harnesses(tier, findings):
     if tier == "composite":
         return [fc(1, 1, timeout=900, meta=1), fc(1, 1, timeout=900, meta=0)]
+    if tier == "full":
+        return [fc(1, 1, timeout=1500, meta=1, full=True)]
     if tier == "probe":
         a = f(1, 1); a.solver = "kissat"; a.name += "_kissat"; a.timeout = 900
         return [a, f(1, 1, timeout=900)]
